@@ -251,6 +251,7 @@ package leveldb
 //@ func (*DB).flush$1
 //@   props C09 C10
 //@   safety off
+//@   requires [C09,C10:the-buffer-is-rotated-under-the-write-lock] held(db.writeLockC) >= 1
 //@   at entry
 //@     ghost gCompactionDue = false
 //@   at call (*DB).tableNeedCompaction#1
@@ -265,6 +266,22 @@ package leveldb
 //@     ghost gWaitFailed = result != nil
 //@   ensures [C09,C10:a-failed-wait-for-a-compaction-is-not-retried] gWaitFailed ==> !result
 //@   ensures [C09:a-retry-without-waiting-for-a-compaction-happens-only-once] (result && calls("(*DB).compTriggerWait") == old(calls("(*DB).compTriggerWait"))) ==> (delayed && !old(delayed))
+
+// C10 / C01: the write buffer and its journal are switched only by the goroutine that holds the write lock - a write
+// group that is being logged and applied while another goroutine rotates ends up in a journal and a buffer that do
+// not belong together: acknowledged, then neither visible nor durable.
+//@ func (*DB).rotateMem
+//@   props C09 C10
+//@   requires [C09,C10:the-buffer-is-rotated-under-the-write-lock] held(db.writeLockC) >= 1
+//@ func (*DB).flush
+//@   props C09 C10
+//@   requires [C09,C10:the-buffer-is-rotated-under-the-write-lock] held(db.writeLockC) >= 1
+
+//@ func (*DB).CompactRange
+//@   props C10
+//@   safety off
+//@   at before call (*DB).rotateMem#1
+//@     assert [C10:the-buffer-is-rotated-under-the-write-lock] held(db.writeLockC) == old(held(db.writeLockC)) + 1
 
 //@ func (*DB).writeLocked
 //@   props C09 C10
@@ -1112,12 +1129,32 @@ package leveldb
 // user key that is visible at the lookup's sequence number (an entry e with e.ukey == ukey and e >= ikey in the
 // internal order must lie in [imin, imax]). That the level is sorted and disjoint is the C06 induction hypothesis.
 //@ spec func mayHold(t ref, ik ikey) bool = ikcmp(t.imax, ik) >= 0 && kcmp(ukeyof(ik), ukeyof(t.imin)) >= 0 && kcmp(ukeyof(ik), ukeyof(t.imax)) <= 0
+// C08 / C01: the walk ends as soon as a callback says so - a lookup stops the walk when it has its answer or when
+// reading a table failed; walking on into older tables after a failed read would answer with an older value and no
+// error.
+//@ ghost var gWalkStopped bool
 //@ func (*version).walkOverlapping
-//@   props C01 C03 C19
+//@   props C01 C03 C19 C08
 //@   abstract keys
 //@   safety off
+//@   at entry
+//@     ghost gWalkStopped = false
+//@   loop 1
+//@     invariant [C01,C08:no-callback-after-one-said-stop] !gWalkStopped
+//@   loop 2
+//@     invariant [C01,C08:no-callback-after-one-said-stop] !gWalkStopped
+//@   loop 3
+//@     invariant [C01,C08:no-callback-after-one-said-stop] !gWalkStopped
+//@   at before call f#*
+//@     assert [C01,C08:no-callback-after-one-said-stop] !gWalkStopped
+//@   at call f#*
+//@     ghost gWalkStopped = !result
+//@   at before call lf#*
+//@     assert [C01,C08:no-callback-after-one-said-stop] !gWalkStopped
+//@   at call lf#*
+//@     ghost gWalkStopped = !result
 //@   at before call (tFiles).searchMax#1
-//@     assume [C01,C03,C19:levels-below-the-top-are-sorted-and-disjoint] sortedDisjoint(tables)
+//@     assume [C01,C03,C08,C19:levels-below-the-top-are-sorted-and-disjoint] sortedDisjoint(tables)
 //@   at call (tFiles).searchMax#1
 //@     assert [C01,C03,C19:tables-not-offered-cannot-hold-a-visible-entry] forall j int :: (0 <= j && j < len(tables) && j != result) ==> !mayHold(tables[j], ikey)
 
@@ -2183,6 +2220,22 @@ package leveldb
 //@     invariant [C01,C19:every-buffer-is-asked] calls("memGet") == old(calls("memGet")) + (auxm != nil ? 1 : 0) + ((rangeidx >= 1 && em != nil) ? 1 : 0) + ((rangeidx >= 2 && fm != nil) ? 1 : 0)
 //@   at before call (*version).get#1
 //@     assert [C01,C19:buffers-before-tables] calls("memGet") == old(calls("memGet")) + (auxm != nil ? 1 : 0) + (em != nil ? 1 : 0) + (fm != nil ? 1 : 0)
+
+// C15 / C03 / C01: the probe of a lookup is the internal key (user key, the caller's sequence number, the seek kind):
+// it sorts before every entry of the key the caller may see and after every newer one. A probe with another sequence
+// number answers for another view (with the largest one: a snapshot sees later writes and deletions).
+//@ func (*DB).get
+//@   props C15 C03 C01
+//@   safety off
+//@   requires [C15:the-sequence-number-fits-an-internal-key] seq <= keyMaxSeq
+//@   at before call makeInternalKey#1
+//@     assert [C01,C03,C15:the-lookup-probe-carries-the-callers-key-and-sequence-number] sameslice(arg1, key) && arg2 == seq && arg3 == keyTypeSeek
+//@ func (*DB).has
+//@   props C15 C03 C01
+//@   safety off
+//@   requires [C15:the-sequence-number-fits-an-internal-key] seq <= keyMaxSeq
+//@   at before call makeInternalKey#1
+//@     assert [C01,C03,C15:the-lookup-probe-carries-the-callers-key-and-sequence-number] sameslice(arg1, key) && arg2 == seq && arg3 == keyTypeSeek
 
 // C03 / C18 / C07: giving a view back. A snapshot gives its registration back exactly once - the first Release does,
 // any later one does nothing (a second release would un-pin what another snapshot at the same sequence number still
